@@ -470,7 +470,7 @@ pub fn property(tier: Tier) -> Property {
         exhaustive: false,
     }));
     Property {
-        id: "C19",
+        id: "C19", scale: tier.pick(2, 1),
         stages,
         assumptions: vec![
             "operations with a checks-mode precondition (inverse on bijections, compose with matching key/value sets, union on compatible maps, duplicate-free from_iter) are only called inside the precondition".into(),
